@@ -109,3 +109,7 @@ package croncontroller
 //@        (exists jc *execution.JobConfig :: jc != nil && jc.Namespace == namespace && jc.Name == name && isCreateOf(old(jwN), jc, scheduleTime.Unix()))
 //@   ensures [C20] failed-create-is-retried: jwN == old(jwN) + 1 && !jwOK[old(jwN)] && jwErr[old(jwN)] != 422 ==> result != nil
 //@   ensures [C02] log-append-only: forall i int :: i < old(jwN) ==> jwKind[i] == old(jwKind[i]) && jwObj[i] == old(jwObj[i]) && jwOK[i] == old(jwOK[i])
+
+// failed syncs of this reconciler are requeued without limit (C20)
+//@ func Reconciler.MaxRequeues
+//@   ensures [C20] unlimited-requeues: result == -1
